@@ -38,7 +38,63 @@ func (c *Ctx) ruleBareRead(rule string, in func(*ssa.Function) bool) {
 	c.R.Infof(rule, "-", "scan", "-", fmt.Sprintf("decoder functions scanned for single Read calls on io.Reader: %d call(s)", n))
 }
 
+// ruleExactConsumption (G12): a decoder of a length-delimited structure takes
+// from its stream only what the structure declares. Anywhere in its call cone
+// the stream must not be handed to a consumer that reads ahead or to the end
+// (buffering wrappers, ReadAll, Copy): what follows the structure belongs to
+// the caller.
+func (c *Ctx) ruleExactConsumption(rule string, specs ...string) {
+	over := map[string]int{ // callee -> index of the argument that is drained
+		"bufio.NewReader": 0, "bufio.NewReaderSize": 0, "bufio.NewScanner": 0, "io.ReadAll": 0, "io/ioutil.ReadAll": 0,
+		"io.Copy": 1, "io.CopyBuffer": 1, "bytes.Buffer.ReadFrom": 1, "bufio.Reader.Reset": 1,
+	}
+	for _, spec := range specs {
+		fn := c.Fn(rule, spec)
+		if fn == nil {
+			continue
+		}
+		var stream *ssa.Parameter
+		for _, p := range fn.Params {
+			if isStreamType(p.Type()) {
+				stream = p
+				break
+			}
+		}
+		if stream == nil {
+			c.R.Undecf(rule, name(fn), "stream", c.Pos(fn.Pos()), "the decoder's input stream must be identifiable", "no stream parameter")
+			continue
+		}
+		dv := c.deepViewOf(fn, 4)
+		dv.throughFields = true
+		ok, det := true, ""
+		n := 0
+		for _, di := range dv.order {
+			call, isC := di.i.(*ssa.Call)
+			if !isC {
+				continue
+			}
+			args := ir.CallArgs(call)
+			for k, a := range args {
+				if !isStreamType(a.Type()) && !isIfaceType(a.Type()) {
+					continue
+				}
+				if r := dv.objectOf(a, di.fr); r.fr != dv.root || r.v != ssa.Value(stream) {
+					continue
+				}
+				n++
+				if idx, isOver := over[ir.CallID(call)]; isOver && idx == k {
+					ok, det = false, "the input stream is handed to "+ir.CallID(call)+" at "+c.IPos(call)+", which reads ahead of (or past) the declared length: the bytes that follow the structure are consumed"
+				}
+			}
+		}
+		dv.throughFields = false
+		c.R.Check(ok, rule, name(fn), "stream-consumers", c.Pos(fn.Pos()), fmt.Sprintf("the decoder consumes exactly the declared bytes: no read-ahead or read-to-end consumer on its stream (%d uses of the stream in the call cone)", n), det)
+	}
+}
+
 func checkC10(c *Ctx) {
+	c.ruleExactConsumption("G12.exact", "efi/signature.ReadWinCertificate", "efi/signature.ReadWinCertificateUEFIGUID", "efi/signature.ReadEFIVariableAuthencation2")
+	c.R.Floor("G12.exact", 3)
 	// G1 pairs (flattened through sub-codecs)
 	rw, _ := c.pairRule("G1.pair", "efi/signature.ReadWinCertificate", "efi/signature.WriteWinCertificate", nil)
 	ru, wu := c.pairRule("G1.pair", "efi/signature.ReadWinCertificateUEFIGUID", "efi/signature.WriteWinCertificateUEFIGUID", map[string]bool{"@uefi-body": true})
